@@ -570,7 +570,10 @@ def run_check(prop: Property, tier: str, replay: Optional[str] = None) -> int:
   if 'leanchecker' in proof:
     coverage['leanchecker'] = proof['leanchecker']
   coverage.update(prop.extra_coverage(ctx))
-  write_json(os.path.join(VERIF, 'evidence', f'{pid}.json'), {
+  # evidence under evidence/ always describes a run against /repo itself; runs against another
+  # checkout (VERIF_REPO, mutant validation) write to evidence_scratch/ instead
+  ev_dir = 'evidence' if os.path.realpath(REPO) == '/repo' else 'evidence_scratch'
+  write_json(os.path.join(VERIF, ev_dir, f'{pid}.json'), {
       'property_id': pid, 'tier': tier, 'seed': seed, 'level': prop.LEVEL,
       'coverage': coverage, 'assumptions': list(prop.ASSUMPTIONS), 'wall_s': round(wall, 2),
       'violations': len(violations)})
